@@ -8,7 +8,8 @@
 # Prints, per break, the violation keys that appear in addition to the baseline's.
 import sys, os, subprocess, shutil, re, json
 WT=os.environ.get('MUT_WT','/tmp/wt-c10c08')  # MUT_WT=<worktree> selects another scratch worktree
-FILES=['amd/emu/computeunit.go','amd/timing/cu/wfdispatcher.go','amd/driver/api.go','amd/driver/context.go','amd/driver/distributor.go','amd/driver/driver.go','amd/driver/internal/devicebuddymemstate.go','amd/driver/internal/memoryallocator.go','amd/driver/internal/devicememstateinterface.go','amd/driver/internal/device.go','amd/kernels/gridbuilder.go','amd/timing/cp/internal/dispatching/partition.go','amd/timing/cp/internal/dispatching/roundrobin.go']
+FILES=['amd/emu/computeunit.go','amd/timing/cu/wfdispatcher.go','amd/driver/api.go','amd/driver/context.go','amd/driver/distributor.go','amd/driver/driver.go','amd/driver/internal/devicebuddymemstate.go','amd/driver/internal/memoryallocator.go','amd/driver/internal/devicememstateinterface.go','amd/driver/internal/device.go','amd/kernels/gridbuilder.go','amd/timing/cp/internal/dispatching/partition.go','amd/timing/cp/internal/dispatching/roundrobin.go','amd/insts/hsaco.go']
+HS='amd/insts/hsaco.go'
 PART='amd/timing/cp/internal/dispatching/partition.go'
 RR='amd/timing/cp/internal/dispatching/roundrobin.go'
 MA='amd/driver/internal/memoryallocator.go'
@@ -106,6 +107,10 @@ MUTS={
  'c10-v3-migration-allocates-on-zero-based-gpu': (DRV, "context.pid, int(gpuID+1), vAddr, true)", "context.pid, int(gpuID), vAddr, true)"),
  'c10-v4-migration-skips-page-table-update': (DRV, "	newPage.IsMigrating = true\n	d.pageTable.Update(newPage)\n", "	newPage.IsMigrating = true\n"),
  'c10-v5-page-copy-reads-from-the-new-frame': (DRV, "				req.ToReadFromPhysicalAddress = oldPAddr\n", "				req.ToReadFromPhysicalAddress = page.PAddr + 0*oldPAddr\n"),
+ # ---- C10, sibling contexts (added after seed6-c10 was missed)
+ 'c10-w0-seed6-free-retargets-first-context-tracking-the-address': ('amd/driver/api.go', "	// log.Printf(\"Free %d\\n\", ptr)\n	d.memAllocator.Free(ctx.pid, uint64(ptr))\n", "	d.contextMutex.Lock()\n	for _, c := range d.contexts {\n		tracks := func(x *Context) bool {\n			x.bufferMutex.Lock()\n			defer x.bufferMutex.Unlock()\n			for _, b := range x.buffers {\n				if b.vAddr == ptr && !b.freed {\n					return true\n				}\n			}\n			return false\n		}\n		if !tracks(ctx) && tracks(c) {\n			ctx = c\n		}\n	}\n	d.contextMutex.Unlock()\n	d.memAllocator.Free(ctx.pid, uint64(ptr))\n"),
+ 'c10-w1-free-ignores-addresses-the-calling-context-did-not-allocate': ('amd/driver/api.go', "	// log.Printf(\"Free %d\\n\", ptr)\n	d.memAllocator.Free(ctx.pid, uint64(ptr))\n", "	known := false\n	ctx.bufferMutex.Lock()\n	for _, b := range ctx.buffers {\n		if b.vAddr == ptr {\n			known = true\n		}\n	}\n	ctx.bufferMutex.Unlock()\n	if !known {\n		return nil\n	}\n	d.memAllocator.Free(ctx.pid, uint64(ptr))\n"),
+ 'c10-w2-remap-uses-the-pid-of-the-first-context': ('amd/driver/api.go', "	d.memAllocator.Remap(ctx.pid, addr, size, deviceID)", "	d.memAllocator.Remap(d.contexts[0].pid, addr, size, deviceID)"),
  # ---- C08
  'c08-n1-partial-size-off-by-one': ('amd/kernels/gridbuilder.go', "		xToAllocate := min(xLeft, int(b.packet.WorkgroupSizeX))", "		xToAllocate := min(xLeft+1, int(b.packet.WorkgroupSizeX))"),
  'c08-n2-exec-mask-shifted': ('amd/kernels/gridbuilder.go', "wf.InitExecMask |= 1 << uint32(inWGID%wavefrontSize)", "wf.InitExecMask |= 1 << uint32((inWGID+1)%wavefrontSize)"),
@@ -143,6 +148,12 @@ MUTS={
  'c08-l4-m6-dispatched-count-not-reset': (PART, "	a.numDispatchedWG = 0\n\n	gb := kernels.NewGridBuilder()", "	gb := kernels.NewGridBuilder()"),
  'c08-l4-rr1-waiting-wg-replaced': (RR, "	if a.currWG == nil {\n		a.currWG = a.gridBuilder.NextWG()\n	}\n", "	a.currWG = a.gridBuilder.NextWG()\n"),
  'c08-l4-rr2-count-not-reset': (RR, "	a.numDispatchedWGs = 0\n	a.gridBuilder.SetKernel(info)", "	a.gridBuilder.SetKernel(info)"),
+ # ---- C08 loader path (L2 via_loader cases, L5)
+ 'c08-ld-seed6-v5-wgid-z-cleared': (HS, "	rsrc2 |= (1 << 7) // enable_sgpr_workgroup_id_x\n	rsrc2 |= (1 << 8) // enable_sgpr_workgroup_id_y\n", "	rsrc2 = (rsrc2 &^ (7 << 7)) | (3 << 7)\n"),
+ 'c08-ld-seed6c13-v5-workitem-id-2-lowered-to-1': (HS, "	if (rsrc2>>11)&3 == 0 {\n", "	if rsrc2&(1<<11) == 0 {\n"),
+ 'c08-ld-m1-v3-header-drops-wgid-y': (HS, "	meta.ComputePgmRsrc2 = binary.LittleEndian.Uint32(data[52:56])\n\n	flags := binary.LittleEndian.Uint32(data[56:60])", "	meta.ComputePgmRsrc2 = binary.LittleEndian.Uint32(data[52:56]) &^ (1 << 8)\n\n	flags := binary.LittleEndian.Uint32(data[56:60])"),
+ 'c08-ld-m2-v3-header-workitem-id-from-wrong-bits': (HS, "	meta.ComputePgmRsrc2 = binary.LittleEndian.Uint32(data[52:56])\n\n	flags := binary.LittleEndian.Uint32(data[56:60])", "	meta.ComputePgmRsrc2 = binary.LittleEndian.Uint32(data[52:56]) &^ (2 << 11)\n\n	flags := binary.LittleEndian.Uint32(data[56:60])"),
+ 'c08-ld-m3-v5-kernel-bytes-off-by-header': (HS, "				co.Data = kernelData // V5: entire kernel data is instructions", "				co.Data = kernelData[4:] // V5: entire kernel data is instructions"),
 }
 HERE=os.path.dirname(os.path.abspath(__file__))
 FIXES=['fix_c10_A_allocator_pid_key_and_free_all_pages.diff','fix_c10_B_removeFreedBuffers.diff','fix_c10_C_buddy_parent_merge_bit.diff','fix_c08_formWavefronts.diff']
